@@ -9,5 +9,8 @@ CHECKS = {
     "C02": dict(level="model_checking", technique=SE + "; the dependency graph itself is a solver variable (membership bits of Dependency.required are z3 Bools)",
                 text="The real _sort_dependencies is executed on symbolic requirement sets: every graph over n<=4/5 components (hence every declaration order) is covered by path exploration; per path z3 proves that a returned order is a valid topological order, that MissingDependenciesError is raised iff a name is missing (and lists exactly those names), and CircularDependencyError iff the graph is complete and cyclic (unrolled transitive closure). API level: all 512 edge sets over 3 components through Model with symbolic values against the evaluator.",
                 note=NOTE),
+    "C13": dict(level="model_checking", technique=SE,
+                text="Bounded symbolic execution of _create_cache / get_initial_conditions / get_args / classification accessors / Simulator.__init__ on assignment chains and on every DAG over 3 derived quantities with all leaf kinds: z3 proves initial values and assignment-defined parameters equal the evaluator at (declared state, t=0), that parameter-like quantities keep that term at an unrelated symbolic state/time, that everything else is recomputed, and the same after parameter / initial-value updates on a populated cache; classification compared with the transitive closure.",
+                note=NOTE),
 }
 NOT_APPLICABLE = {}
